@@ -1,1 +1,970 @@
-fn main() {}
+//! Harness for C08: the real `fuel_core_importer::Importer` over the real in-memory
+//! `Database<OnChain>` through fuel-core's own `ImporterDatabase` adapter.
+//!
+//! The harness is an action interpreter and logger only.  Observation points are the ports the
+//! importer's worker calls in program order (a delegating database / transaction wrapper, the scripted
+//! verifier, validator and write port) and the broadcast receivers.  A concurrent second request is
+//! issued while the first one is parked inside one of those port calls (hand-shake, no clocks).
+//! TLC judges the traces (specs/Trace_Importer.tla).
+use fuel_core::database::{
+    Database,
+    database_description::on_chain::OnChain,
+};
+use fuel_core_importer::{
+    Config,
+    Importer,
+    ImporterResult,
+    ports::{
+        BlockReconciliationWritePort,
+        BlockVerifier,
+        DatabaseTransaction,
+        ImporterDatabase,
+        Transactional,
+        Validator,
+    },
+};
+use fuel_core_storage::{
+    MerkleRoot,
+    Result as StorageResult,
+    StorageAsMut,
+    StorageAsRef,
+    column::Column,
+    iter::{
+        IterDirection,
+        IterableStore,
+        IteratorOverTable,
+    },
+    kv_store::{
+        StorageColumn,
+        WriteOperation,
+    },
+    tables::{
+        FuelBlocks,
+        SealedBlockConsensus,
+        Transactions,
+        merkle::{
+            DenseMerkleMetadata,
+            DenseMetadataKey,
+            FuelBlockMerkleMetadata,
+        },
+    },
+    transactional::{
+        Changes,
+        StorageChanges,
+        StorageTransaction,
+    },
+};
+use fuel_core_types::{
+    blockchain::{
+        SealedBlock,
+        block::Block,
+        consensus::{
+            Consensus,
+            Genesis,
+            poa::PoAConsensus,
+        },
+        header::PartialBlockHeader,
+    },
+    fuel_merkle::binary::root_calculator::MerkleRootCalculator,
+    fuel_tx::{
+        Bytes32,
+        Transaction,
+        UniqueIdentifier,
+        policies::Policies,
+    },
+    fuel_types::{
+        BlockHeight,
+        ChainId,
+    },
+    services::{
+        block_importer::{
+            ImportResult,
+            UncommittedResult,
+        },
+        executor::{
+            Error as ExecutorError,
+            Result as ExecutorResult,
+            UncommittedValidationResult,
+            ValidationResult,
+        },
+    },
+};
+use h_common::*;
+use serde_json::{
+    Map,
+    Value,
+};
+use std::{
+    collections::HashMap,
+    future::Future,
+    pin::Pin,
+    sync::{
+        Arc,
+        Condvar,
+        Mutex,
+        atomic::{
+            AtomicI64,
+            AtomicU64,
+            Ordering,
+        },
+    },
+    task::Poll,
+};
+use tokio::sync::broadcast;
+
+type Db = Database<OnChain>;
+
+// ------------------------------------------------------------------ abstract values <-> concrete values
+
+#[derive(Clone, Debug, PartialEq, Eq)]
+struct Tok {
+    h: i64,
+    k: String,
+    txs: Vec<i64>,
+}
+
+impl Tok {
+    fn from(v: &Value) -> Tok {
+        let mut txs: Vec<i64> = v["txs"].as_array().map(|a| a.iter().filter_map(|x| x.as_i64()).collect()).unwrap_or_default();
+        txs.sort();
+        txs.dedup();
+        Tok { h: v["h"].as_i64().unwrap_or_else(|| die("block without h")), k: v["k"].as_str().unwrap_or("P").to_string(), txs }
+    }
+    fn json(&self) -> Value {
+        json!({"h": self.h, "k": self.k, "txs": self.txs})
+    }
+}
+
+fn bid(id: fuel_core_types::blockchain::primitives::BlockId) -> [u8; 32] {
+    let b: Bytes32 = id.into();
+    *b
+}
+
+fn chain_id() -> ChainId {
+    ChainId::default()
+}
+
+fn mk_tx(t: i64) -> Transaction {
+    Transaction::script(0, vec![], vec![t as u8, 0x5a], Policies::new(), vec![], vec![], vec![]).into()
+}
+
+fn mk_block(tok: &Tok) -> SealedBlock {
+    let mut header = PartialBlockHeader::default();
+    header.consensus.height = (tok.h as u32).into();
+    // the consensus kind is not part of the block id: keep the two kinds apart through the DA height
+    header.application.da_height = (if tok.k == "G" { 0u64 } else { 1u64 }).into();
+    let txs = tok.txs.iter().map(|t| mk_tx(*t)).collect();
+    let entity = Block::new(header, txs, &[], Bytes32::zeroed()).unwrap_or_else(|e| die(&format!("block: {e:?}")));
+    let consensus = if tok.k == "G" { Consensus::Genesis(Genesis::default()) } else { Consensus::PoA(PoAConsensus::default()) };
+    SealedBlock { entity, consensus }
+}
+
+#[derive(Clone, Debug)]
+struct Script {
+    c: i64,
+    exe: String,
+    ver: String,
+    publ: String,
+}
+
+#[derive(Default)]
+struct Gate {
+    stops: Vec<String>,
+    arrived: Vec<String>,
+    released: Vec<String>,
+    done: bool,
+}
+
+struct Shared {
+    view: Db,
+    buf: Mutex<Vec<(u8, String, Value)>>,
+    scripts: Mutex<HashMap<[u8; 32], Script>>,
+    blocks: Mutex<HashMap<[u8; 32], Tok>>,
+    txs: Mutex<HashMap<[u8; 32], i64>>,
+    cur_c: AtomicI64,
+    cur_exec: AtomicI64, // 1 while the top-level request is execute_and_commit
+    gate: Mutex<Gate>,
+    cv: Condvar,
+    subs: Mutex<Vec<(usize, broadcast::Receiver<ImporterResult>)>>,
+    held: Mutex<Vec<ImporterResult>>,
+    digests: Mutex<Vec<u64>>,
+    exp_root: Mutex<String>,
+    junk: AtomicU64,
+    nsubs: usize,
+}
+
+impl Shared {
+    fn tag(&self, stage: &str) -> u8 {
+        if self.cur_exec.load(Ordering::SeqCst) == 1 {
+            match stage {
+                "ReadHeight" | "StoreNew" => 1,
+                "Verify" | "Execute" => 2,
+                _ => 3,
+            }
+        } else {
+            3
+        }
+    }
+    fn push(&self, tag: u8, ev: &str, v: Value) {
+        self.buf.lock().unwrap().push((tag, ev.to_string(), v));
+    }
+    fn stage(&self, ev: &str, v: Value) {
+        self.push(self.tag(ev), ev, v);
+    }
+    /// Port entry: park here when the driver asked for it, until it lets the worker go on.
+    fn at_port(&self, stage: &str) {
+        let mut g = self.gate.lock().unwrap();
+        if let Some(i) = g.stops.iter().position(|s| s == stage) {
+            g.stops.remove(i);
+            g.arrived.push(stage.to_string());
+            self.cv.notify_all();
+            loop {
+                if let Some(j) = g.released.iter().position(|s| s == stage) {
+                    g.released.remove(j);
+                    break;
+                }
+                g = self.cv.wait(g).unwrap();
+            }
+        }
+    }
+    fn script_of(&self, id: [u8; 32]) -> Option<Script> {
+        let s = self.scripts.lock().unwrap().get(&id).cloned();
+        if let Some(s) = &s {
+            self.cur_c.store(s.c, Ordering::SeqCst);
+        }
+        s
+    }
+    fn c(&self) -> i64 {
+        self.cur_c.load(Ordering::SeqCst)
+    }
+    fn register(&self, tok: &Tok, sb: &SealedBlock) {
+        self.blocks.lock().unwrap().insert(bid(sb.entity.id()), tok.clone());
+        let mut m = self.txs.lock().unwrap();
+        for (t, tx) in tok.txs.iter().zip(sb.entity.transactions()) {
+            m.insert(*tx.id(&chain_id()), *t);
+        }
+    }
+    fn token_of_block(&self, id: [u8; 32], h: i64) -> Value {
+        match self.blocks.lock().unwrap().get(&id) {
+            Some(t) => t.json(),
+            None => json!({"h": h, "k": "?", "txs": []}),
+        }
+    }
+
+    // ---------------------------------------------------------------- projection of the database
+
+    fn block_ids(&self) -> Vec<(u32, [u8; 32])> {
+        self.view
+            .iter_all::<FuelBlocks>(Some(IterDirection::Forward))
+            .filter_map(|r| r.ok())
+            .map(|(h, b)| (*h, bid(b.id())))
+            .collect()
+    }
+    fn root_class(&self, root: Option<MerkleRoot>) -> String {
+        match root {
+            None => "none".to_string(),
+            Some(r) => {
+                let mut calc = MerkleRootCalculator::new();
+                for (_, id) in self.block_ids() {
+                    calc.push(&id);
+                }
+                if calc.root() == r { "chain".to_string() } else { "other".to_string() }
+            }
+        }
+    }
+    fn project(&self) -> Value {
+        let blocks: Vec<Value> = self.block_ids().into_iter().map(|(h, id)| self.token_of_block(id, h as i64)).collect();
+        let cons: Vec<i64> = self
+            .view
+            .iter_all_keys::<SealedBlockConsensus>(Some(IterDirection::Forward))
+            .filter_map(|r| r.ok())
+            .map(|h| *h as i64)
+            .collect();
+        let txm = self.txs.lock().unwrap();
+        let mut txs: Vec<i64> = self
+            .view
+            .iter_all_keys::<Transactions>(Some(IterDirection::Forward))
+            .filter_map(|r| r.ok())
+            .map(|id| txm.get(&*id).copied().unwrap_or(99))
+            .collect();
+        txs.sort();
+        let root = self
+            .view
+            .storage_as_ref::<FuelBlockMerkleMetadata>()
+            .get(&DenseMetadataKey::Latest)
+            .ok()
+            .flatten()
+            .map(|m| *m.root());
+        json!({"blocks": blocks, "cons": cons, "txs": txs, "root": self.root_class(root)})
+    }
+    /// Version of the whole database content: index of its digest among the digests seen in this walk.
+    fn dv(&self) -> i64 {
+        let mut h: u64 = 0xcbf29ce484222325;
+        let mut eat = |bytes: &[u8]| {
+            for b in bytes {
+                h ^= *b as u64;
+                h = h.wrapping_mul(0x100000001b3);
+            }
+            h ^= 0xff;
+            h = h.wrapping_mul(0x100000001b3);
+        };
+        for col in enum_iterator::all::<Column>() {
+            for item in self.view.iter_store(col, None, None, IterDirection::Forward) {
+                if let Ok((k, v)) = item {
+                    eat(&col.id().to_be_bytes());
+                    eat(&k);
+                    eat(&v);
+                }
+            }
+        }
+        let mut d = self.digests.lock().unwrap();
+        if let Some(i) = d.iter().position(|x| *x == h) {
+            i as i64
+        } else {
+            d.push(h);
+            (d.len() - 1) as i64
+        }
+    }
+
+    // ---------------------------------------------------------------- subscribers
+
+    /// Take everything the subscribers have received so far; one Broadcast event if there was anything.
+    fn drain(&self) {
+        let mut items: Vec<Vec<Value>> = vec![vec![]; self.nsubs];
+        let mut any = false;
+        let mut subs = self.subs.lock().unwrap();
+        for (id, rx) in subs.iter_mut() {
+            loop {
+                match rx.try_recv() {
+                    Ok(res) => {
+                        let b = &res.sealed_block.entity;
+                        items[*id - 1].push(self.token_of_block(bid(b.id()), **b.header().height() as i64));
+                        self.held.lock().unwrap().push(res);
+                        any = true;
+                    }
+                    Err(broadcast::error::TryRecvError::Lagged(n)) => {
+                        items[*id - 1].push(json!({"h": -(n as i64), "k": "lagged", "txs": []}));
+                        any = true;
+                    }
+                    Err(_) => break,
+                }
+            }
+        }
+        if any {
+            self.push(3, "Broadcast", json!({"c": self.c(), "items": items}));
+        }
+    }
+}
+
+// ------------------------------------------------------------------ the ports
+
+struct ObsDb {
+    inner: Db,
+    sh: Arc<Shared>,
+}
+
+struct ObsTx<'a> {
+    inner: StorageTransaction<&'a Db>,
+    sh: Arc<Shared>,
+}
+
+impl ImporterDatabase for ObsDb {
+    fn latest_block_height(&self) -> StorageResult<Option<BlockHeight>> {
+        self.sh.at_port("ReadHeight");
+        let r = ImporterDatabase::latest_block_height(&self.inner);
+        let val = match &r {
+            Ok(Some(h)) => **h as i64,
+            Ok(None) => -1,
+            Err(_) => -2,
+        };
+        self.sh.stage("ReadHeight", json!({"c": self.sh.c(), "val": val}));
+        r
+    }
+
+    fn latest_block_root(&self) -> StorageResult<Option<MerkleRoot>> {
+        self.sh.at_port("CheckRoot");
+        let r = ImporterDatabase::latest_block_root(&self.inner);
+        *self.sh.exp_root.lock().unwrap() = match &r {
+            Ok(x) => self.sh.root_class(*x),
+            Err(_) => "err".to_string(),
+        };
+        r
+    }
+
+    fn commit_changes(&mut self, changes: StorageChanges) -> StorageResult<()> {
+        self.sh.at_port("DbCommit");
+        // anything announced before the data is written shows up here, in the worker's program order
+        self.sh.drain();
+        let r = ImporterDatabase::commit_changes(&mut self.inner, changes);
+        let res = match &r {
+            Ok(()) => "Ok".to_string(),
+            Err(_) => "Err:Storage".to_string(),
+        };
+        self.sh.stage("DbCommit", json!({"c": self.sh.c(), "res": res, "db": self.sh.project(), "dv": self.sh.dv()}));
+        r
+    }
+}
+
+impl Transactional for ObsDb {
+    type Transaction<'a>
+        = ObsTx<'a>
+    where
+        Self: 'a;
+
+    fn storage_transaction(&self, changes: Changes) -> Self::Transaction<'_> {
+        ObsTx { inner: Transactional::storage_transaction(&self.inner, changes), sh: self.sh.clone() }
+    }
+}
+
+impl DatabaseTransaction for ObsTx<'_> {
+    fn latest_block_root(&self) -> StorageResult<Option<MerkleRoot>> {
+        let r = DatabaseTransaction::latest_block_root(&self.inner);
+        let got = match &r {
+            Ok(x) => self.sh.root_class(*x),
+            Err(_) => "err".to_string(),
+        };
+        let exp = self.sh.exp_root.lock().unwrap().clone();
+        self.sh.stage("CheckRoot", json!({"c": self.sh.c(), "exp": exp, "got": got}));
+        r
+    }
+
+    fn store_new_block(&mut self, chain_id: &ChainId, block: &SealedBlock) -> StorageResult<bool> {
+        self.sh.script_of(bid(block.entity.id()));
+        self.sh.at_port("StoreNew");
+        let r = DatabaseTransaction::store_new_block(&mut self.inner, chain_id, block);
+        let res = match &r {
+            Ok(true) => "New",
+            Ok(false) => "Found",
+            Err(_) => "Err",
+        };
+        self.sh.stage("StoreNew", json!({"c": self.sh.c(), "res": res}));
+        r
+    }
+
+    fn into_changes(self) -> Changes {
+        DatabaseTransaction::into_changes(self.inner)
+    }
+}
+
+struct Ver(Arc<Shared>);
+impl BlockVerifier for Ver {
+    fn verify_block_fields(&self, _consensus: &Consensus, block: &Block) -> anyhow::Result<()> {
+        let s = self.0.script_of(bid(block.id()));
+        self.0.at_port("Verify");
+        let bad = s.map(|s| s.ver == "err").unwrap_or(false);
+        self.0.stage("Verify", json!({"c": self.0.c(), "res": if bad { "Err" } else { "Ok" }}));
+        if bad { Err(anyhow::anyhow!("scripted verification failure")) } else { Ok(()) }
+    }
+}
+
+/// The changes an execution hands to the importer: always one fresh unrelated key; "touch" also
+/// overwrites the block Merkle metadata with a foreign root, "same" rewrites it with its current value.
+fn exec_changes(sh: &Shared, exe: &str) -> Changes {
+    let mut changes = Changes::default();
+    let n = sh.junk.fetch_add(1, Ordering::SeqCst);
+    let mut key = vec![0x77u8; 24];
+    key.extend_from_slice(&n.to_be_bytes());
+    changes
+        .entry(Column::ContractsRawCode.id())
+        .or_default()
+        .insert(key.into(), WriteOperation::Insert(vec![1, 2, 3].into()));
+    let meta = match exe {
+        "touch" => Some(DenseMerkleMetadata::new([0xAB; 32], 7)),
+        "same" => sh
+            .view
+            .storage_as_ref::<FuelBlockMerkleMetadata>()
+            .get(&DenseMetadataKey::Latest)
+            .ok()
+            .flatten()
+            .map(|m| m.into_owned()),
+        _ => None,
+    };
+    if let Some(m) = meta {
+        let mut tx = StorageTransaction::transaction(
+            &sh.view,
+            fuel_core_storage::transactional::ConflictPolicy::Overwrite,
+            changes,
+        );
+        tx.storage_as_mut::<FuelBlockMerkleMetadata>()
+            .insert(&DenseMetadataKey::Latest, &m)
+            .unwrap_or_else(|e| die(&format!("metadata write: {e:?}")));
+        changes = tx.into_changes();
+    }
+    changes
+}
+
+struct Val(Arc<Shared>);
+impl Validator for Val {
+    fn validate(&self, block: &Block) -> ExecutorResult<UncommittedValidationResult<Changes>> {
+        let s = self.0.script_of(bid(block.id()));
+        self.0.at_port("Execute");
+        let exe = s.map(|s| s.exe).unwrap_or_else(|| "clean".to_string());
+        self.0.stage("Execute", json!({"c": self.0.c(), "res": if exe == "err" { "Err" } else { "Ok" }}));
+        if exe == "err" {
+            return Err(ExecutorError::MintMissing);
+        }
+        Ok(UncommittedValidationResult::new(
+            ValidationResult { tx_status: vec![], events: vec![] },
+            exec_changes(&self.0, &exe),
+        ))
+    }
+}
+
+struct Wp(Arc<Shared>);
+impl BlockReconciliationWritePort for Wp {
+    fn publish_produced_block(&self, block: &SealedBlock) -> anyhow::Result<()> {
+        let s = self.0.script_of(bid(block.entity.id()));
+        self.0.at_port("Publish");
+        let bad = s.map(|s| s.publ == "err").unwrap_or(false);
+        self.0.stage("Publish", json!({"c": self.0.c(), "res": if bad { "Err" } else { "Ok" }}));
+        if bad { Err(anyhow::anyhow!("scripted publish failure")) } else { Ok(()) }
+    }
+}
+
+// ------------------------------------------------------------------ the driver
+
+fn err_kind(e: &fuel_core_importer::error::Error) -> String {
+    let s = format!("{e:?}");
+    let k: String = s.chars().take_while(|c| c.is_ascii_alphanumeric()).collect();
+    format!("Err:{k}")
+}
+
+fn paused_rt() -> tokio::runtime::Runtime {
+    tokio::runtime::Builder::new_current_thread()
+        .enable_time()
+        .start_paused(true)
+        .build()
+        .unwrap_or_else(|e| die(&format!("runtime: {e}")))
+}
+
+struct Node {
+    sh: Arc<Shared>,
+    importer: Arc<Importer>,
+}
+
+struct ReqSpec {
+    c: i64,
+    kind: String,
+    tok: Tok,
+    exe: String,
+    ver: String,
+    publ: String,
+}
+
+impl ReqSpec {
+    fn from(s: &Map<String, Value>) -> ReqSpec {
+        ReqSpec {
+            c: s.int("c"),
+            kind: s.str_("kind").to_string(),
+            tok: Tok::from(s.get("b").unwrap_or_else(|| die("request without block"))),
+            exe: s.str_("exe").to_string(),
+            ver: s.str_("ver").to_string(),
+            publ: s.str_("pub").to_string(),
+        }
+    }
+    fn json(&self) -> Value {
+        json!({"c": self.c, "kind": self.kind, "b": self.tok.json(), "exe": self.exe, "ver": self.ver, "pub": self.publ})
+    }
+}
+
+type ReqFut = Pin<Box<dyn Future<Output = String> + Send>>;
+
+impl Node {
+    fn new(buf: usize, nsubs: usize) -> Node {
+        let view = Db::in_memory();
+        let sh = Arc::new(Shared {
+            view: view.clone(),
+            buf: Mutex::new(vec![]),
+            scripts: Mutex::new(HashMap::new()),
+            blocks: Mutex::new(HashMap::new()),
+            txs: Mutex::new(HashMap::new()),
+            cur_c: AtomicI64::new(0),
+            cur_exec: AtomicI64::new(0),
+            gate: Mutex::new(Gate::default()),
+            cv: Condvar::new(),
+            subs: Mutex::new(vec![]),
+            held: Mutex::new(vec![]),
+            digests: Mutex::new(vec![]),
+            exp_root: Mutex::new("none".to_string()),
+            junk: AtomicU64::new(0),
+            nsubs,
+        });
+        let importer = Importer::new(
+            chain_id(),
+            Config { max_block_notify_buffer: buf, metrics: false },
+            ObsDb { inner: view, sh: sh.clone() },
+            Val(sh.clone()),
+            Ver(sh.clone()),
+            Wp(sh.clone()),
+        );
+        let n = Node { sh, importer: Arc::new(importer) };
+        n.subscribe(1);
+        n.subscribe(2);
+        let _ = n.sh.dv(); // digest of the empty database = version 0
+        n
+    }
+
+    fn subscribe(&self, s: usize) {
+        let rx = self.importer.subscribe();
+        self.sh.subs.lock().unwrap().push((s, rx));
+    }
+
+    /// The future of one public call, yielding the result as text.
+    fn call(&self, r: &ReqSpec, main: bool) -> ReqFut {
+        let sb = mk_block(&r.tok);
+        self.sh.register(&r.tok, &sb);
+        let script = Script { c: r.c, exe: r.exe.clone(), ver: r.ver.clone(), publ: r.publ.clone() };
+        if main {
+            self.sh.scripts.lock().unwrap().insert(bid(sb.entity.id()), script);
+        } else {
+            // a concurrent attempt on the very block in flight must not replace that request's script
+            self.sh.scripts.lock().unwrap().entry(bid(sb.entity.id())).or_insert(script);
+        }
+        let imp = self.importer.clone();
+        if r.kind == "commit" {
+            let changes = exec_changes(&self.sh, &r.exe);
+            let unc = UncommittedResult::new(ImportResult::new_from_local(sb, vec![], vec![]), changes);
+            Box::pin(async move {
+                match imp.commit_result(unc).await {
+                    Ok(()) => "Ok".to_string(),
+                    Err(e) => err_kind(&e),
+                }
+            })
+        } else {
+            Box::pin(async move {
+                match imp.execute_and_commit(sb).await {
+                    Ok(()) => "Ok".to_string(),
+                    Err(e) => err_kind(&e),
+                }
+            })
+        }
+    }
+
+    /// A second request while the first one is parked in a port call: poll it once.
+    fn attempt(&self, r: &ReqSpec, tag: u8, pending: &mut Vec<(i64, tokio::runtime::Runtime, ReqFut)>) {
+        let prev_c = self.sh.c();
+        let rt = paused_rt();
+        let mut fut = self.call(r, false);
+        let first = rt.block_on(std::future::poll_fn(|cx| Poll::Ready(fut.as_mut().poll(cx))));
+        let mut ev = r.json();
+        let o = ev.as_object_mut().unwrap();
+        match first {
+            Poll::Ready(res) if res == "Err:Semaphore" => {
+                o.insert("res".into(), json!(res));
+                o.insert("db".into(), self.sh.project());
+                o.insert("dv".into(), json!(self.sh.dv()));
+                self.sh.push(tag, "Lock", ev);
+            }
+            Poll::Ready(res) => {
+                o.insert("res".into(), json!("Ok"));
+                self.sh.push(tag, "Lock", ev);
+                self.sh.push(tag, "Return", json!({"c": r.c, "res": res, "db": self.sh.project(), "dv": self.sh.dv()}));
+            }
+            Poll::Pending => {
+                // it got past the lock and now waits for the worker
+                o.insert("res".into(), json!("Ok"));
+                self.sh.push(tag, "Lock", ev);
+                pending.push((r.c, rt, fut));
+            }
+        }
+        self.sh.cur_c.store(prev_c, Ordering::SeqCst);
+    }
+
+    fn request(&self, t: &mut Trace, r: &ReqSpec, during: &[(String, ReqSpec)]) {
+        let sh = &self.sh;
+        sh.cur_c.store(r.c, Ordering::SeqCst);
+        sh.cur_exec.store(if r.kind == "exec" { 1 } else { 0 }, Ordering::SeqCst);
+        {
+            let mut g = sh.gate.lock().unwrap();
+            *g = Gate::default();
+            for d in during {
+                if !g.stops.contains(&d.0) {
+                    g.stops.push(d.0.clone());
+                }
+            }
+        }
+        let fut = self.call(r, true);
+        let sh2 = sh.clone();
+        let client = std::thread::spawn(move || {
+            let rt = paused_rt();
+            let res = rt.block_on(fut);
+            let mut g = sh2.gate.lock().unwrap();
+            g.done = true;
+            sh2.cv.notify_all();
+            res
+        });
+        let mut pending = vec![];
+        loop {
+            let mut g = sh.gate.lock().unwrap();
+            while g.arrived.is_empty() && !g.done {
+                g = sh.cv.wait(g).unwrap();
+            }
+            if g.arrived.is_empty() {
+                // the call returned: nothing may park any more (a wrongly admitted second request may
+                // still be served by the worker)
+                g.stops.clear();
+                break;
+            }
+            let at = g.arrived.remove(0);
+            drop(g);
+            let tag = sh.tag(&at);
+            for d in during.iter().filter(|d| d.0 == at) {
+                self.attempt(&d.1, tag, &mut pending);
+            }
+            let mut g = sh.gate.lock().unwrap();
+            g.released.push(at);
+            sh.cv.notify_all();
+        }
+        let res = client.join().unwrap_or_else(|_| "Panic".to_string());
+        sh.cur_c.store(r.c, Ordering::SeqCst);
+        sh.drain();
+        let mut ev = r.json();
+        let o = ev.as_object_mut().unwrap();
+        if res == "Err:Semaphore" {
+            o.insert("res".into(), json!(res));
+            o.insert("db".into(), sh.project());
+            o.insert("dv".into(), json!(sh.dv()));
+            sh.push(0, "Lock", ev);
+        } else {
+            o.insert("res".into(), json!("Ok"));
+            sh.push(0, "Lock", ev);
+            sh.push(4, "Return", json!({"c": r.c, "res": res, "db": sh.project(), "dv": sh.dv()}));
+        }
+        for (c, rt, fut) in pending {
+            let res = rt.block_on(fut);
+            sh.cur_c.store(c, Ordering::SeqCst);
+            sh.drain();
+            sh.push(4, "Return", json!({"c": c, "res": res, "db": sh.project(), "dv": sh.dv()}));
+        }
+        self.flush(t);
+    }
+
+    fn flush(&self, t: &mut Trace) {
+        let mut b = std::mem::take(&mut *self.sh.buf.lock().unwrap());
+        b.sort_by_key(|e| e.0); // stable: program order inside one branch is kept
+        for (_, ev, v) in b {
+            t.event(&ev, v);
+        }
+    }
+
+    fn seed(&self, t: &mut Trace, what: &str, x: i64) {
+        let mut d = self.sh.view.clone();
+        let res = match what {
+            "cons" => d
+                .storage_as_mut::<SealedBlockConsensus>()
+                .insert(&(x as u32).into(), &Consensus::PoA(PoAConsensus::default()))
+                .map(|_| ()),
+            _ => {
+                let tx = mk_tx(x);
+                let id = tx.id(&chain_id());
+                self.sh.txs.lock().unwrap().insert(*id, x);
+                d.storage_as_mut::<Transactions>().insert(&id, &tx).map(|_| ())
+            }
+        };
+        let res = if res.is_ok() { "Ok" } else { "Err" };
+        t.event("Seed", json!({"what": what, "x": x, "res": res, "db": self.sh.project(), "dv": self.sh.dv()}));
+    }
+
+    fn release(&self, t: &mut Trace) {
+        self.sh.drain();
+        self.flush(t);
+        self.sh.held.lock().unwrap().clear();
+        t.event("Release", json!({}));
+    }
+}
+
+fn step(n: &Node, t: &mut Trace, s: &Map<String, Value>) -> Option<String> {
+    match s.name() {
+        "Req" => {
+            let r = ReqSpec::from(s);
+            let during: Vec<(String, ReqSpec)> = s
+                .get("during")
+                .and_then(|d| d.as_array())
+                .map(|a| {
+                    a.iter()
+                        .filter_map(|d| d.as_object())
+                        .map(|d| (d.str_("at").to_string(), ReqSpec::from(d)))
+                        .collect()
+                })
+                .unwrap_or_default();
+            n.request(t, &r, &during);
+            None
+        }
+        "Seed" => {
+            n.seed(t, s.str_("what"), s.int("x"));
+            None
+        }
+        "Release" => {
+            n.release(t);
+            None
+        }
+        "Subscribe" => {
+            let id = s.int("s") as usize;
+            n.subscribe(id);
+            t.event("Subscribe", json!({"s": id}));
+            None
+        }
+        other => Some(other.to_string()),
+    }
+}
+
+fn run(args: &Args) {
+    let walks = read_walks(args.req("walks"));
+    let buf = args.num("buf", 2) as usize;
+    let nsubs = args.num("subs", 3) as usize;
+    let mut t = Trace::create(args.req("out"));
+    for w in walks {
+        t.reset(w.id, json!({}));
+        let n = Node::new(buf, nsubs);
+        for s in &w.steps {
+            if let Some(bad) = step(&n, &mut t, s) {
+                die(&format!("unknown action {bad}"));
+            }
+        }
+    }
+    t.finish();
+}
+
+/// Seeded driver: request sequences with correct, duplicate, skipped, stale and tampered blocks, injected
+/// verifier / executor / publisher failures, transaction ids reused across blocks, stray records in the
+/// empty database, full notification buffers and concurrent attempts.  The driver looks at results only to
+/// choose the next inputs.
+fn random(args: &Args) {
+    let nwalks = args.num("walks", 100);
+    let len = args.num("len", 14);
+    let buf = args.num("buf", 2) as usize;
+    let nsubs = args.num("subs", 3) as usize;
+    let maxh = args.num("maxh", 8) as i64;
+    let ntx = args.num("ntx", 6) as i64;
+    let mut rng = Rng::new(env_seed() ^ 0x08_08);
+    let mut t = Trace::create(args.req("out"));
+    let gates = ["ReadHeight", "StoreNew", "Verify", "Execute", "CheckRoot", "Publish", "DbCommit"];
+    for wid in 0..nwalks {
+        t.reset(wid as i64, json!({}));
+        let n = Node::new(buf, nsubs);
+        let mut latest: i64 = -1;
+        let mut last: Option<Tok> = None;
+        let mut used: Vec<i64> = vec![];
+        let mut sub3 = false;
+        let mut unreleased = 0;
+        let mut seeded: Vec<(&str, i64)> = vec![];
+        for _ in 0..len {
+            let roll = rng.below(100);
+            if latest < 0 && roll < 12 {
+                let (what, x) = if rng.chance(1, 2) { ("cons", rng.range(0, 2)) } else { ("tx", rng.range(1, ntx)) };
+                if !seeded.contains(&(what, x)) {
+                    seeded.push((what, x));
+                    n.seed(&mut t, what, x);
+                }
+                continue;
+            }
+            if roll < 20 && (unreleased > 0 || roll < 3) {
+                n.release(&mut t);
+                unreleased = 0;
+                continue;
+            }
+            if !sub3 && nsubs >= 3 && roll < 24 {
+                n.subscribe(3);
+                t.event("Subscribe", json!({"s": 3}));
+                sub3 = true;
+                continue;
+            }
+            // choose the block
+            let fresh: Vec<i64> = (1..=ntx).filter(|x| !used.contains(x)).collect();
+            let pick_txs = |rng: &mut Rng, dup: bool| -> Vec<i64> {
+                let mut v = vec![];
+                if !fresh.is_empty() && rng.chance(3, 4) {
+                    v.push(*rng.pick(&fresh));
+                }
+                if dup && !used.is_empty() {
+                    v.push(*rng.pick(&used));
+                } else if dup {
+                    v.push(rng.range(1, ntx));
+                }
+                v.sort();
+                v.dedup();
+                v
+            };
+            let shape = rng.below(100);
+            let mut tok = if latest < 0 {
+                // empty database: genesis mostly, sometimes a PoA block
+                let k = if shape < 75 { "G" } else { "P" };
+                Tok { h: rng.range(0, 2), k: k.to_string(), txs: pick_txs(&mut rng, shape % 7 == 0) }
+            } else if shape < 55 {
+                Tok { h: latest + 1, k: "P".to_string(), txs: pick_txs(&mut rng, false) }
+            } else if shape < 63 {
+                last.clone().unwrap_or(Tok { h: latest, k: "P".to_string(), txs: vec![] }) // duplicate
+            } else if shape < 70 {
+                Tok { h: latest + 2, k: "P".to_string(), txs: pick_txs(&mut rng, false) } // skipped
+            } else if shape < 77 {
+                Tok { h: rng.range(0, latest), k: "P".to_string(), txs: pick_txs(&mut rng, false) } // stale
+            } else if shape < 88 {
+                Tok { h: latest + 1, k: "P".to_string(), txs: pick_txs(&mut rng, true) } // reused transaction
+            } else if shape < 94 {
+                Tok { h: latest + 1, k: "G".to_string(), txs: pick_txs(&mut rng, false) } // genesis again
+            } else {
+                Tok { h: 0, k: "P".to_string(), txs: vec![] }
+            };
+            if tok.h > maxh {
+                tok.h = maxh;
+            }
+            let kind = if tok.k == "G" || rng.chance(1, 2) { "commit" } else { "exec" };
+            let kind = if tok.k == "G" && rng.chance(1, 6) { "exec" } else { kind };
+            let fault = rng.below(100);
+            let (exe, ver, publ) = if kind == "commit" {
+                match fault {
+                    0..=69 => ("clean", "ok", "ok"),
+                    70..=79 => ("touch", "ok", "ok"),
+                    80..=89 => ("same", "ok", "ok"),
+                    _ => ("clean", "ok", "err"),
+                }
+            } else {
+                match fault {
+                    0..=59 => ("clean", "ok", "ok"),
+                    60..=69 => ("touch", "ok", "ok"),
+                    70..=77 => ("same", "ok", "ok"),
+                    78..=88 => ("err", "ok", "ok"),
+                    89..=96 => ("clean", "err", "ok"),
+                    _ => ("err", "err", "ok"),
+                }
+            };
+            let c = 1 + rng.below(2) as i64;
+            let r = ReqSpec { c, kind: kind.to_string(), tok: tok.clone(), exe: exe.to_string(), ver: ver.to_string(), publ: publ.to_string() };
+            let mut during = vec![];
+            if rng.chance(3, 10) {
+                let k = 1 + rng.below(2);
+                let mut ats: Vec<usize> = (0..k).map(|_| rng.below(gates.len() as u64) as usize).collect();
+                ats.sort();
+                for a in ats {
+                    let other = ReqSpec {
+                        c: 3 - c,
+                        kind: if rng.chance(1, 2) { "commit".to_string() } else { "exec".to_string() },
+                        tok: Tok { h: latest + 1 + rng.range(0, 1), k: "P".to_string(), txs: vec![] },
+                        exe: "clean".to_string(),
+                        ver: "ok".to_string(),
+                        publ: "ok".to_string(),
+                    };
+                    during.push((gates[a].to_string(), other));
+                }
+            }
+            let before = n.sh.block_ids().len();
+            n.request(&mut t, &r, &during);
+            if n.sh.block_ids().len() > before {
+                latest = tok.h;
+                used.extend(tok.txs.iter().copied());
+                last = Some(tok);
+                unreleased += 1;
+            }
+        }
+    }
+    t.finish();
+}
+
+fn main() {
+    let args = Args::parse();
+    match args.mode.as_str() {
+        "run" => run(&args),
+        "random" => random(&args),
+        m => die(&format!("unknown mode {m}")),
+    }
+}
